@@ -158,4 +158,3 @@ func oMatch(pattern, name string) (bool, bool) {
 	}
 	return oMatchItems(items, name), false
 }
-
